@@ -289,15 +289,27 @@ def decideProposal (s : St) (h r : Nat) : St :=
   let v := if s.lockedValue ≠ 0 then s.lockedValue else if s.validValue ≠ 0 then s.validValue else s.fresh
   if v = 0 then s else emit s (.proposal h r (polInfo s) v)
 
+/-- `enterPropose` up to its deferred part: the propose timeout is scheduled, the proposer decides its proposal, then
+`updateRoundStep(round, RoundStepPropose)` -/
+def proposeCore (s : St) (h r : Nat) : St :=
+  let s1 := emit s (.timeout h r sPropose)
+  let s2 := if isProposer s1 then decideProposal s1 h r else s1
+  { s2 with round := r, step := sPropose }
+
 /-- `enterPropose` -/
 def enterPropose (s : St) (h r : Nat) : St :=
   if s.dead then s
   else if s.height ≠ h ∨ r < s.round ∨ (s.round = r ∧ sPropose ≤ s.step) then s
   else
-    let s1 := emit s (.timeout h r sPropose)
-    let s2 := if isProposer s1 then decideProposal s1 h r else s1
-    let s3 := { s2 with round := r, step := sPropose }
+    let s3 := proposeCore s h r
     if isProposalComplete s3 then enterPrevote s3 h s3.round else s3
+
+/-- `enterNewRound` up to the call of `enterPropose`: round and step updated, proposal reset for rounds > 0,
+`cs.Votes.SetRound(round + 1)` -/
+def newRoundCore (s : St) (r : Nat) (vals : ValSet.VS) : St :=
+  let s1 := { s with round := r, step := sNewRound, vals := vals }
+  let s2 := if r = 0 then s1 else { s1 with proposal := none, pb := 0, pbp := none }
+  setRound s2 (r + 1)
 
 /-- `enterNewRound` -/
 def enterNewRound (s : St) (h r : Nat) : St :=
@@ -306,11 +318,7 @@ def enterNewRound (s : St) (h r : Nat) : St :=
   else
     match (if s.round < r then ValSet.incrBulk ((r - s.round : Nat) : Int) s.vals else some s.vals) with
     | none => die s
-    | some vals =>
-      let s1 := { s with round := r, step := sNewRound, vals := vals }
-      let s2 := if r = 0 then s1 else { s1 with proposal := none, pb := 0, pbp := none }
-      let s3 := setRound s2 (r + 1)
-      enterPropose s3 h r
+    | some vals => enterPropose (newRoundCore s r vals) h r
 
 /-- `enterPrevoteWait` -/
 def enterPrevoteWait (s : St) (h r : Nat) : St :=
@@ -399,6 +407,21 @@ def setProposal (s : St) (h r : Nat) (pol : Int) (v : Value) (total : Nat) (sign
   else if (ValSet.getProposer s.vals).map (fun a => (a : Int)) ≠ some signer then s
   else { s with proposal := some pol, pb := 0, pbp := some { v := v, total := total, got := [] } }
 
+/-- `addProposalBlockPart`, the `Valid*` update when the block completes while the current round has a polka for it -/
+def validOnComplete (s2 : St) : St :=
+  match (s2.pvs s2.round).maj23 with
+  | some b => if b ≠ 0 ∧ s2.validRound < s2.round ∧ s2.pb = b then { s2 with validRound := s2.round, validValue := s2.pb } else s2
+  | none => s2
+
+/-- `addProposalBlockPart`, what follows a completed block: prevote (and precommit if the round already has a +2/3 majority),
+or finalize when the node was only waiting for the block -/
+def blockCompleted (s3 : St) (h : Nat) (hasMaj : Bool) : St :=
+  if s3.step ≤ sPropose ∧ isProposalComplete s3 then
+    let s4 := enterPrevote s3 h s3.round
+    if hasMaj then enterPrecommit s4 h s4.round else s4
+  else if s3.step = sCommit then tryFinalizeCommit s3 h
+  else s3
+
 /-- `addProposalBlockPart` -/
 def addPart (s : St) (h : Nat) (pv : Value) (idx : Nat) : St :=
   if s.height ≠ h then s
@@ -415,19 +438,62 @@ def addPart (s : St) (h : Nat) (pv : Value) (idx : Nat) : St :=
         if ps'.got.length ≠ ps.total then s1
         else
           let s2 := { s1 with pb := ps.v }
-          let mj := (s2.pvs s2.round).maj23
-          let s3 := match mj with
-            | some b => if b ≠ 0 ∧ s2.validRound < s2.round ∧ s2.pb = b then { s2 with validRound := s2.round, validValue := s2.pb } else s2
-            | none => s2
-          if s3.step ≤ sPropose ∧ isProposalComplete s3 then
-            let s4 := enterPrevote s3 h s3.round
-            if mj.isSome then enterPrecommit s4 h s4.round else s4
-          else if s3.step = sCommit then tryFinalizeCommit s3 h
-          else s3
+          blockCompleted (validOnComplete s2) h (s2.pvs s2.round).maj23.isSome
 
 def putVS (s : St) (r t : Nat) (vs : VSet) : St :=
   let rv := s.rv r
   { s with rvs := aset s.rvs r (if t = tPrevote then { rv with pv := vs } else { rv with pc := vs }) }
+
+/-- `addVote`, prevote case, first half: a polka (for a block or nil) at `r` unlocks a lock of an earlier round when
+`LockedRound < r ≤ Round` and updates `Valid*` when it is for the proposal block -/
+def polkaUpdate (s2 : St) (r : Nat) (pv : VSet) : St :=
+  match pv.maj23 with
+  | some b =>
+    let sa := if s2.lockedValue ≠ 0 ∧ s2.lockedRound < r ∧ r ≤ s2.round ∧ s2.lockedValue ≠ b then unlock s2 else s2
+    if b ≠ 0 ∧ sa.validRound < r ∧ r ≤ sa.round ∧ sa.pb = b then { sa with validRound := r, validValue := sa.pb } else sa
+  | none => s2
+
+/-- `addVote`, prevote case, second half: round skip / PrevoteWait / Precommit / complete proposal -/
+def onPrevote (s3 : St) (r : Nat) (pv : VSet) : St :=
+  let h := s3.height
+  if s3.round ≤ r ∧ pv.hasAny s3.total then
+    let s4 := enterNewRound s3 h r
+    if pv.maj23.isSome then enterPrecommit s4 h r
+    else enterPrevoteWait (enterPrevote s4 h r) h r
+  else
+    match s3.proposal with
+    | some pol => if 0 ≤ pol ∧ pol = (r : Int) ∧ isProposalComplete s3 then enterPrevote s3 h s3.round else s3
+    | none => s3
+
+/-- `addVote`, precommit case -/
+def onPrecommit (s2 : St) (r : Nat) (pc : VSet) : St :=
+  let h := s2.height
+  match pc.maj23 with
+  | some b =>
+    if b = 0 then enterNewRound s2 h (r + 1)
+    else enterCommit (enterPrecommit (enterNewRound s2 h r) h r) h r
+  | none =>
+    if s2.round ≤ r ∧ pc.hasAny s2.total then enterPrecommitWait (enterPrecommit (enterNewRound s2 h r) h r) h r
+    else s2
+
+/-- `HeightVoteSet.AddVote`, the round lookup: a vote of a round without vote sets opens a peer catch-up round (two per peer);
+`none` = `GotVoteFromUnwantedRoundError` -/
+def catchupRound (s : St) (r src : Nat) : Option St :=
+  match alookup s.rvs r with
+  | some _ => some s
+  | none =>
+    let rz := (alookup s.catchup src).getD []
+    if rz.length < 2 then some { s with rvs := s.rvs ++ [(r, RV.empty)], catchup := aset s.catchup src (rz ++ [r]) }
+    else none
+
+/-- `HeightVoteSet.AddVote` + `VoteSet.AddVote`: the state with the vote recorded, and whether it was added -/
+def recordVote (s : St) (t r idx : Nat) (v : Value) (src : Nat) (ok : Bool) : St × Bool :=
+  match catchupRound s r src with
+  | none => (s, false)
+  | some s1 =>
+    let vs := if t = tPrevote then s1.pvs r else s1.pcs r
+    let res := vs.add s1.n s1.total idx (s1.powerOf idx) v ok
+    (putVS s1 r t res.1, res.2)
 
 /-- `addVote` (through `tryAddVote`; errors only feed logs and the evidence pool) -/
 def addVote (s : St) (t vh r idx : Nat) (v : Value) (src : Nat) (ok : Bool) : St :=
@@ -435,47 +501,11 @@ def addVote (s : St) (t vh r idx : Nat) (v : Value) (src : Nat) (ok : Bool) : St
   else if vh ≠ s.height then s
   else if t ≠ tPrevote ∧ t ≠ tPrecommit then s
   else
-    -- HeightVoteSet.AddVote: unknown round = peer catch-up round (two per peer)
-    let pre : Option St :=
-      match alookup s.rvs r with
-      | some _ => some s
-      | none =>
-        let rz := (alookup s.catchup src).getD []
-        if rz.length < 2 then some { s with rvs := s.rvs ++ [(r, RV.empty)], catchup := aset s.catchup src (rz ++ [r]) }
-        else none
-    match pre with
-    | none => s
-    | some s1 =>
-      let vs := if t = tPrevote then s1.pvs r else s1.pcs r
-      let res := vs.add s1.n s1.total idx (s1.powerOf idx) v ok
-      let s2 := putVS s1 r t res.1
-      if !res.2 then s2
-      else
-        let h := s2.height
-        if t = tPrevote then
-          let pv := res.1
-          let s3 := match pv.maj23 with
-            | some b =>
-              let sa := if s2.lockedValue ≠ 0 ∧ s2.lockedRound < r ∧ r ≤ s2.round ∧ s2.lockedValue ≠ b then unlock s2 else s2
-              if b ≠ 0 ∧ sa.validRound < r ∧ r ≤ sa.round ∧ sa.pb = b then { sa with validRound := r, validValue := sa.pb } else sa
-            | none => s2
-          if s3.round ≤ r ∧ pv.hasAny s3.total then
-            let s4 := enterNewRound s3 h r
-            if pv.maj23.isSome then enterPrecommit s4 h r
-            else enterPrevoteWait (enterPrevote s4 h r) h r
-          else
-            match s3.proposal with
-            | some pol => if 0 ≤ pol ∧ pol = (r : Int) ∧ isProposalComplete s3 then enterPrevote s3 h s3.round else s3
-            | none => s3
-        else
-          let pc := res.1
-          match pc.maj23 with
-          | some b =>
-            if b = 0 then enterNewRound s2 h (r + 1)
-            else enterCommit (enterPrecommit (enterNewRound s2 h r) h r) h r
-          | none =>
-            if s2.round ≤ r ∧ pc.hasAny s2.total then enterPrecommitWait (enterPrecommit (enterNewRound s2 h r) h r) h r
-            else s2
+    let res := recordVote s t r idx v src ok
+    let s2 := res.1
+    if !res.2 then s2
+    else if t = tPrevote then onPrevote (polkaUpdate s2 r (s2.pvs r)) r (s2.pvs r)
+    else onPrecommit s2 r (s2.pcs r)
 
 /-- `handleTimeout` -/
 def handleTimeout (s : St) (h r st : Nat) : St :=
